@@ -64,8 +64,7 @@ def any_listing(g: nx.Graph, rng) -> nx.Graph:
 def history_descriptions(g: nx.Graph, c: nx.Graph, rng):
     """descriptions of the same molecule that have been through the library before: the canonical graph renumbered
     (it carries partition classes and whatever graph-level attributes the library attached), the input with a
-    coarser partition already on it (by element, as partition_molecule_by_attribute leaves it), the input with
-    arbitrary partition values"""
+    coarser partition already on it (by element, as the library's own partition_molecule_by_attribute leaves it)"""
     out = []
     labels = list(c.nodes)
     sh = list(labels)
@@ -74,11 +73,41 @@ def history_descriptions(g: nx.Graph, c: nx.Graph, rng):
     p, err = safe(partition_molecule_by_attribute, g, "atomic_number")
     if p is not None:
         out.append(("partitioned by element before", p))
-    j = g.copy()
-    for n in j.nodes:
-        j.nodes[n]["partition"] = rng.randint(0, 3)
-    out.append(("arbitrary partition values", j))
     return out
+
+
+class CallTimeout(BaseException):
+    pass
+
+
+class limit:
+    """`with limit(s):` — abandon a single library call after `s` seconds (C15: "returns normally").  Shares the process's
+    one alarm clock with the deadline of the whole workload (check.py) and hands it back afterwards."""
+
+    def __init__(self, seconds):
+        self.seconds = int(seconds)
+
+    def __enter__(self):
+        import signal
+        import time as _t
+        self.t0 = _t.time()
+        self.old_handler = signal.getsignal(signal.SIGALRM)
+
+        def on_alarm(signum, frame):
+            raise CallTimeout(f"no result after {self.seconds} s")
+        self.remaining = signal.alarm(0)
+        signal.signal(signal.SIGALRM, on_alarm)
+        signal.alarm(self.seconds if not self.remaining else max(1, min(self.seconds, self.remaining)))
+        return self
+
+    def __exit__(self, et, ev, tb):
+        import signal
+        import time as _t
+        signal.alarm(0)
+        signal.signal(signal.SIGALRM, self.old_handler)
+        if self.remaining:
+            signal.alarm(max(1, int(self.remaining - (_t.time() - self.t0))))
+        return False
 
 
 def tucan_of(g: nx.Graph) -> str:
@@ -86,12 +115,16 @@ def tucan_of(g: nx.Graph) -> str:
 
 
 def safe(f, *a):
+    """(result, None) or (None, exception); a `None` result of a library function counts as an error"""
     try:
-        return f(*a), None
+        r = f(*a)
     except RecursionError as e:
         return None, e
     except Exception as e:
         return None, e
+    if r is None:
+        return None, TypeError(f"{getattr(f, '__name__', f)} returned None")
+    return r, None
 
 
 def repo_molfiles(kind="v3000"):
@@ -123,6 +156,10 @@ def molecules(run, rng, count, max_n=22):
         big = THOROUGH and rng.random() < 0.1
         m = G.gen_mol(rng, max_n=max_n * 5 if big else max_n)
         sizes(run, m)
+        if run.stats["corr_op:GFM"] < 40 * (20 if THOROUGH else 1):
+            # graph_from_molecule builds every graph the workloads use: compared with the model on the dictionaries themselves
+            a, b = G.to_dicts(m)
+            run.corr(*R.op_gfm(copy.deepcopy(a), copy.deepcopy(b)), "atom-order")
         yield m
 
 
@@ -148,6 +185,10 @@ def queue_pipeline_ops(run, g: nx.Graph, want=("canon", "serialize")):
         line, real, sinfo = R.op_serialize(c2)
         run.corr(line, real, "observable")
         s = sinfo.get("string")
+        if run.stats["corr_op:FINAL"] < 25 * (20 if THOROUGH else 1):
+            # the two internal steps of the serializer (cosmetic relabelling, sort by atomic number), each against the model
+            run.corr(*R.op_final(c.copy()), "observable")
+            run.corr(*R.op_sortby(c.copy(), "z"), "observable")
     return c, s, info
 
 
@@ -167,25 +208,28 @@ def _logged_graph(log):
 
 
 def check_oracle_contract(run, base_log, logs, m, m2):
-    """validation of the assumption about igraph/bliss (`CanonOracle.canonical`): colour-isomorphic inputs
-    must get identical canonical forms.  If the canonical forms of two descriptions of one molecule differ,
-    an independent matcher decides who is at fault: the coloured graphs handed to igraph are isomorphic
-    (then igraph broke its contract) or they are not (then the colouring depends on the description, which
-    is a violation by the library itself)."""
-    if base_log is None or not logs or "order" not in logs[-1]:
+    """Validation of the ASSUMPTION about igraph/bliss (`CanonOracle.canonical`): colour-isomorphic inputs must get
+    identical canonical forms.  This looks at an internal of the library (which calls of igraph it makes, with
+    which colours), so it never decides a property: what it sees goes into the evidence as a diagnosis (igraph at
+    fault / the colouring handed to igraph depends on the description) next to whatever the probes report about
+    strings and canonical graphs.  Only calls on the whole molecule are compared."""
+    n = m.n()
+    whole = [l for l in (logs or []) if "order" in l and len(l.get("names", [])) == n]
+    if base_log is None or not whole or len(base_log.get("names", [])) != n:
         return
     run.stats["oracle_pairs_checked"] += 1
-    if R.canonical_form(logs[-1]) == R.canonical_form(base_log):
+    try:
+        if R.canonical_form(whole[-1]) == R.canonical_form(base_log):
+            return
+        g1, g2 = _logged_graph(base_log), _logged_graph(whole[-1])
+        same = nx.is_isomorphic(g1, g2, node_match=lambda a, b: a["colour"] == b["colour"])
+    except Exception:
+        run.stats["oracle_diagnosis:not-possible"] += 1
         return
-    g1, g2 = _logged_graph(base_log), _logged_graph(logs[-1])
-    same = nx.is_isomorphic(g1, g2, node_match=lambda a, b: a["colour"] == b["colour"])
-    if same:
-        run.fail("bliss-contract-violated", "igraph returned different canonical forms for colour-isomorphic inputs",
-                 {"mol": mol_repr(m), "relabelled": mol_repr(m2)})
-    else:
-        run.fail("colouring-depends-on-description",
-                 "the class-coloured graphs handed to igraph for two descriptions of one molecule are not isomorphic",
-                 {"mol": mol_repr(m), "relabelled": mol_repr(m2)})
+    kind = "bliss-contract-violated" if same else "colouring-depends-on-description"
+    run.stats["oracle_diagnosis:" + kind] += 1
+    if len(run.notes) < 20:
+        run.notes.append(f"oracle diagnosis ({kind}) for {mol_repr(m)} / {mol_repr(m2)}")
 
 
 def exhaustive_small(run, rng, check, max_exhaustive=4):
@@ -217,6 +261,9 @@ def work_C01(run, rng, budget):
     if budget > 1:
         def chk(m, variants):
             s0, err = safe(tucan_of, mol_graph(m))
+            if err is not None:
+                run.fail("pipeline-raises", f"pipeline raised {type(err).__name__}", {"mol": mol_repr(m)})
+                return
             for m2, perm in variants:
                 s2, err2 = safe(tucan_of, mol_graph(m2))
                 run.case(("C01x", mol_repr(m), perm), m.n() >= 2)
@@ -277,7 +324,10 @@ def work_C01(run, rng, budget):
     # the repository's own molecules, relabelled
     files = repo_molfiles()
     for f in rng.sample(files, min(len(files), 25 * budget)):
-        g = graph_from_molfile_text(open(f).read())
+        g, err = safe(graph_from_molfile_text, open(f).read())
+        if err is not None:
+            run.fail("pipeline-raises", f"{os.path.basename(f)}: reader raised {type(err).__name__}", {"file": f})
+            continue
         s0, err = safe(tucan_of, g)
         if err is not None:
             run.fail("pipeline-raises", f"{os.path.basename(f)}: {type(err).__name__}", {"file": f})
@@ -647,10 +697,16 @@ def work_C06(run, rng, budget):
         run.corr(line, real, "observable")
         g0 = info.get("graph")
         if g0 is None:
+            # a conformant rendering that is rejected: no string to compare the variants with.  That the file should
+            # have been read is C07's statement; here it is recorded so that the check does not pass vacuously
             run.stats["reader_rejects"] += 1
+            run.fail("conformant-molfile-rejected", f"{real} on a conformant V3000 rendering: nothing to compare the variants with",
+                     {"mol": mol_repr(m), "text": base_text})
             continue
         s0, err = safe(tucan_of, g0)
         if err is not None:
+            run.fail("pipeline-raises", f"{type(err).__name__} on the graph read from a conformant rendering",
+                     {"mol": mol_repr(m), "text": base_text})
             continue
         for k in range(3):
             m2 = vary_nonidentity(m, rng)
@@ -666,7 +722,11 @@ def work_C06(run, rng, budget):
             run.case(("C06", mol_repr(m), text), True)
             run.stats["variant:" + kind] += 1
             if g is None:
+                # the base rendering was read, a rendering that differs only in non-identity data is not: the identifier
+                # (here: whether there is one at all) depends on data C06 says it must not depend on
                 run.stats["reader_rejects"] += 1
+                run.fail("non-identity-data-changes-the-string", f"{s0!r} vs {real} for a variant that differs only in non-identity data",
+                         {"mol": mol_repr(m), "variant": mol_repr(m2), "texts": [base_text, text]})
                 continue
             s, err = safe(tucan_of, g)
             if s != s0:
@@ -734,11 +794,18 @@ def compare_read(g: nx.Graph, m: G.Mol, coord_tol=1e-9):
         return f"atoms not numbered consecutively in file order: {list(g.nodes)[:10]}"
     for i, exp in enumerate(atoms):
         d = g.nodes[i]
-        for k in ("element_symbol", "atomic_number", "chg", "rad", "mass"):
+        for k in ("element_symbol", "atomic_number"):
             if d.get(k) != exp.get(k):
                 return f"atom {i + 1}: {k} read as {d.get(k)!r}, stated {exp.get(k)!r}"
+        for k in ("chg", "rad", "mass"):       # "not stated" and 0 are the same statement, however the reader stores it
+            if (d.get(k) or None) != (exp.get(k) or None):
+                return f"atom {i + 1}: {k} read as {d.get(k)!r}, stated {exp.get(k)!r}"
         for k in ("x_coord", "y_coord", "z_coord"):
-            if abs(float(d.get(k, 0)) - exp[k]) > 5e-5:
+            try:
+                off = abs(float(d.get(k, 0)) - exp[k])
+            except (TypeError, ValueError):
+                return f"atom {i + 1}: {k} read as {d.get(k)!r}, stated {exp[k]!r}"
+            if off > 5e-5:
                 return f"atom {i + 1}: {k} read as {d.get(k)!r}, stated {exp[k]!r}"
     got = {frozenset((a, b)): d.get("bond_type") for a, b, d in g.edges(data=True)}
     if got != bonds:
@@ -1047,6 +1114,10 @@ def work_C09(run, rng, budget):
             run.fail("line-longer-than-80", f"{len(too_long[0]) + 1} characters incl. newline", {"mol": mol_repr(m), "line": too_long[0]})
         nwrap = sum(1 for l in text.split("\n") if l.endswith("-"))
         run.stats["wrapped_lines:" + ("0" if nwrap == 0 else "1-3" if nwrap <= 3 else "4+")] += 1
+        tl = text.split("\n")
+        if len(tl) > 1:
+            tl[1] = "  <HEADER>"          # program name and time stamp: not read by the reader, not part of the workload
+        text = "\n".join(tl)
         line, real, rinfo = R.op_moltext(text)
         run.corr(line, real, "atom-order")
         h = rinfo.get("graph")
@@ -1102,19 +1173,28 @@ def work_C09(run, rng, budget):
             while body.endswith("-"):
                 body = body[:-1] + "0"
             run.corr(*R.op_wrap(body), "exact")
+            # the two private helpers, called directly: a line-level view of wrapping.  If they have gone or changed
+            # their calling convention, this view is lost (the model comparison of WRAP / SPLICE shows it), but nothing is
+            # claimed about the property: the file-level write/read probe above exercises wrapping through the public
+            # functions with the same long lines
             out = []
-            from tucan.io import molfile_writer as MW, molfile_v3000_reader as V3
-            wrap, splice = getattr(MW, "_add_v30_line", None), getattr(V3, "_concat_lines_with_dash", None)
-            if wrap is None or splice is None:
-                # the two private helpers have gone: the line-level probe has nothing to call (the file-level
-                # write/read probe above still exercises wrapping through the public functions)
-                run.stats["wrap_helpers_missing"] += 1
+            try:
+                from tucan.io import molfile_writer as MW, molfile_v3000_reader as V3
+                wrap, splice = MW._add_v30_line, V3._concat_lines_with_dash
+                res = wrap(out, body)
+                usable = res is None and out and all(isinstance(l, str) for l in out)
+            except Exception:
+                usable = False
+            if not usable:
+                run.stats["wrap_helpers_not_usable"] += 1
                 continue
-            wrap(out, body)
             run.corr(*R.op_splice(out + ["M  END"]), "exact")
             back, err = safe(splice, out + ["M  END"])
             run.case(("C09wrap", body), len(body) > 72)
             run.stats["wrap_len:" + str(base)] += 1
+            if err is None and not (isinstance(back, list) and back and isinstance(back[0], str)):
+                run.stats["wrap_helpers_not_usable"] += 1
+                continue
             if err is not None or back[0] != "M  V30 " + body:
                 run.fail("wrap-splice-roundtrip-differs", f"length {len(body)}", {"line": body, "physical": out, "spliced": back})
     # string -> graph -> molfile -> graph -> string
@@ -1126,16 +1206,25 @@ def work_C09(run, rng, budget):
         if any(d.get("rad", 1) > 3 for _, d in g.nodes(data=True)):
             continue  # outside the molfile format's radical range 1..3
         s1, err = safe(tucan_of, g.copy())
+        run.case(("C09chain", s), True)
+        run.stats["chain"] += 1
+        if err is not None:
+            run.fail("string-molfile-string-differs", f"the pipeline raises {type(err).__name__} on the parsed graph of {s!r}", {"tucan": s})
+            continue
         if rng.random() < 0.5:  # write the canonical graph (listed in another order than its labels)
-            g, _ = safe(canonicalize_molecule, g)
+            g, errc = safe(canonicalize_molecule, g)
             run.stats["chain_via_canonical_graph"] += 1
-        text, err2 = safe(graph_to_molfile, g)
-        if err is not None or err2 is not None:
+            if errc is not None:
+                run.fail("string-molfile-string-differs", f"canonicalize raises {type(errc).__name__} on the parsed graph of {s!r}", {"tucan": s})
+                continue
+        line, real, winfo = R.op_write(g)      # graphs without coordinates and without bond records
+        run.corr(line, real, "exact")
+        text = winfo.get("text")
+        if text is None:
+            run.fail("writer-raises", f"{real} on the parsed graph of {s!r}", {"tucan": s})
             continue
         h, err = safe(graph_from_molfile_text, text)
         s2, err3 = safe(tucan_of, h) if h is not None else (None, err)
-        run.case(("C09chain", s), True)
-        run.stats["chain"] += 1
         if s2 != s1:
             run.fail("string-molfile-string-differs", f"{s1!r} -> {s2!r}", {"tucan": s, "molfile": text})
     return "graphs with charges/radicals/masses/bond types and coordinates of 1-100+ digits (forcing 0, 1 and several wraps " \
@@ -1161,12 +1250,17 @@ def work_C10(run, rng, budget):
             run.fail("valid-sentence-rejected", f"{s!r}: {real}", {"string": s})
         else:
             atoms, bset, at = TG.denote(counts, bonds, attrs)
-            got_atoms = [g.nodes[i].get("element_symbol") for i in range(g.number_of_nodes())] if list(g.nodes) == list(range(g.number_of_nodes())) else None
+            # C10 speaks about the numbering of the atoms, not about the order in which the graph lists them
+            got_atoms = [g.nodes[i].get("element_symbol") for i in range(g.number_of_nodes())] if sorted(g.nodes) == list(range(g.number_of_nodes())) else None
             got_b = {frozenset((a, b)) for a, b in g.edges}
             got_at = {i: {k: d[k] for k in ("mass", "rad") if k in d} for i, d in g.nodes(data=True) if "mass" in d or "rad" in d}
             if got_atoms != atoms or got_b != bset or got_at != at:
                 run.fail("parsed-graph-differs-from-denotation", f"{s!r}", {"string": s})
         run.sample(s)
+        if run.stats["corr_op:LEX"] < 60 * (20 if THOROUGH else 1):
+            run.corr(*R.op_lex(s), "exact")        # the generated lexer alone against the model's maximal-munch lexer
+            for e in TG.edits(s, rng, 2):
+                run.corr(*R.op_lex(e), "exact")
         for e in TG.edits(s, rng, 25):
             line, real, _ = R.op_parse(e)
             run.corr(line, real, "observable", meta={"string": e})
@@ -1328,13 +1422,21 @@ def work_C12(run, rng, budget):
         if err is not None or P.show_graph(c2) != P.show_graph(c):
             run.fail("repeated-canonicalize-differs", "second call on the same object differs", {"mol": mol_repr(m)})
         cc = c.copy()
-        chem_before = P.strip_scratch(P.normalise_graph_dump(P.show_graph(cc)))
+        # every attribute the graph carries before the call (element, charge, isotope, radical, coordinates, class, tag,
+        # bond type) must be there unchanged afterwards, and no atom or bond may appear or disappear; attributes the
+        # serializer ADDS for its own bookkeeping are its business
+        nodes_before = {n: dict(d) for n, d in cc.nodes(data=True)}
+        edges_before = {frozenset((a, b)): dict(d) for a, b, d in cc.edges(data=True)}
         line, real, sinfo = R.op_serialize(cc)
         run.corr(line, real, "observable")
         s1 = sinfo.get("string")
-        chem_after = P.strip_scratch(P.normalise_graph_dump(P.show_graph(cc)))
-        if chem_before != chem_after:
-            run.fail("serialize-alters-its-argument", "a chemically meaningful attribute changed", {"mol": mol_repr(m)})
+        nodes_after = {n: dict(d) for n, d in cc.nodes(data=True)}
+        edges_after = {frozenset((a, b)): dict(d) for a, b, d in cc.edges(data=True)}
+        changed = set(nodes_before) != set(nodes_after) or set(edges_before) != set(edges_after) or \
+            any(nodes_after[n].get(k, "<gone>") != v for n, d in nodes_before.items() for k, v in d.items() if k != "explored") or \
+            any(edges_after[e].get(k, "<gone>") != v for e, d in edges_before.items() for k, v in d.items())
+        if changed:
+            run.fail("serialize-alters-its-argument", "an attribute the graph carried before the call changed or disappeared", {"mol": mol_repr(m)})
         hist = [s1]
         for _ in range(rng.randint(1, 3)):
             s, err = safe(serialize_molecule, cc)
@@ -1353,7 +1455,8 @@ def work_C12(run, rng, budget):
 # =====================================================================================
 
 def classes_by_tag(c):
-    return {d["vtag"]: d["partition"] for _, d in c.nodes(data=True)}
+    # a missing attribute becomes a value no other molecule description can reproduce
+    return {d.get("vtag", f"?node{n}"): d.get("partition", f"?missing{n}") for n, d in c.nodes(data=True)}
 
 
 def work_C13(run, rng, budget):
@@ -1377,6 +1480,7 @@ def work_C13(run, rng, budget):
             m2, perm = G.relabel(m, rng)
             c2, err = safe(canonicalize_molecule, mol_graph(m2))
             if err is not None:
+                run.fail("canonicalize-raises", f"{type(err).__name__} on a relabelled description", {"mol": mol_repr(m2)})
                 continue
             if classes_by_tag(c2) != cls:
                 run.fail("classes-depend-on-labelling", "class of an atom changes with the numbering/listing",
@@ -1409,6 +1513,10 @@ def work_C13(run, rng, budget):
 # =====================================================================================
 # C15
 # =====================================================================================
+
+# the largest input of the quick tier takes about 10 s on this machine, of the thorough tier about 60 s
+CALL_LIMIT_S = int(os.environ.get("VERIF_CALL_LIMIT_S", "0") or 0) or 600
+
 
 def big_families(budget):
     """quick: one chain just above CPython's default recursion limit (a round per two atoms), the other
@@ -1453,12 +1561,22 @@ def work_C15(run, rng, budget):
         g = graph_from_molecule(atoms, bonds)
         run.case(("C15", name), True)
         run.stats["family:" + name.rstrip("0123456789")] += 1
-        s, err = safe(tucan_of, g)
+        try:
+            with limit(CALL_LIMIT_S):
+                s, err = safe(tucan_of, g)
+        except CallTimeout:
+            run.fail("pipeline-does-not-return", f"{name}: no result after {CALL_LIMIT_S} s", {"family": name, "atoms": n})
+            continue
         if err is not None:
             key = "recursion-error-on-long-chain" if isinstance(err, RecursionError) else "pipeline-raises-" + type(err).__name__
             run.fail(key, f"{name}: {type(err).__name__}", {"family": name, "atoms": n})
             continue
-        h, err = safe(graph_from_tucan, s)
+        try:
+            with limit(CALL_LIMIT_S):
+                h, err = safe(graph_from_tucan, s)
+        except CallTimeout:
+            run.fail("parser-does-not-return", f"{name}: no result after {CALL_LIMIT_S} s", {"family": name, "atoms": n})
+            continue
         if err is not None:
             run.fail("parser-raises-on-pipeline-output", f"{name}: {type(err).__name__}", {"family": name, "atoms": n})
         run.sample({"family": name, "atoms": n, "len": len(s)})
